@@ -1781,6 +1781,8 @@ class TypedefNode(AstNode):
 
         #        self.default_format(parent, format, kwargs)
         self.fmtdict = util.Scope(parent=parent.fmtdict)
+        if format:
+            self.fmtdict.update(format, replace=True)
 
         self.ast = ast
 
@@ -1825,6 +1827,8 @@ class VariableNode(AstNode):
 
         #        self.default_format(parent, format, kwargs)
         self.fmtdict = util.Scope(parent=parent.fmtdict)
+        if format:
+            self.fmtdict.update(format, replace=True)
 
         if not decl:
             raise RuntimeError("VariableNode missing decl")
